@@ -20,3 +20,7 @@ def signature(d, hist):
 
 def run(chk):
     relrun.standard(chk, relevant, signature, schema="pk_idx_b")
+
+
+def replay(chk, path):
+    return relrun.replay_file(chk, path, relevant, signature)
